@@ -364,7 +364,7 @@ func runC05(c *Ctx, si interface{}) {
 		ts.Seed = mix(s.Tape.Seed, k)
 		sepVals = nil
 		res := genOp(NewTape(ts), b.Recipe)
-		c.T(res.brief())
+		c.T(res.tkey())
 		c.Eval(1)
 		if res.Kind != "ok" {
 			c.Count("generation_"+res.Kind, 1)
